@@ -54,10 +54,23 @@ def judge(spec, obs):
             return f"client {cid}: {0 if res is None else len(res)} outcomes for {len(c['calls'])} calls"
         for k, (call, r) in enumerate(zip(c["calls"], res)):
             if c["server"] in ("refuse", "needpw"):
-                if r[0] != "raise" or r[1] == "ValueError":
+                want = {"refuse": ("ConnectionRefusedError", "ConnectError"), "needpw": ("AuthenticationError",)}[c["server"]]
+                if r[0] != "raise" or r[1] not in want:
                     return (f"client {cid} (connection cannot be established: {c['server']}), call #{k} {call['method']}: "
-                            f"{'blocked until the timeout' if r[0] == 'blocked' else r} - it must raise")
+                            f"{'blocked until the timeout' if r[0] == 'blocked' else r[:2]} - every call must raise the connection "
+                            f"error ({' / '.join(want)})")
                 continue
+            if c["server"] == "frames":
+                # the i-th capture call is answered by the server's i-th reply: a capture returns the screen of ITS update
+                nth = 1 + sum(1 for cc in c["calls"][:k] if cc["method"] in ("capture", "capture_bad"))
+                if call["method"] == "capture" and r[:2] != ["ret", nth]:
+                    return (f"client {cid}, call #{k} captureScreen: "
+                            + (f"the saved image shows server reply #{r[1]}, the reply to this call's own request is #{nth}"
+                               if r[0] == "ret" else f"got {r[:2]}"))
+                if call["method"] == "capture_bad" and r[0] != "raise":
+                    return f"client {cid}, call #{k} captureScreen to a directory that does not exist: {r[:2]} - it must raise"
+                if call["method"] in ("capture", "capture_bad"):
+                    continue
             exp = call["exp"]
             if exp[0] == "ret":
                 ok = r[0] == "ret" and r[1] == exp[1]
@@ -67,10 +80,11 @@ def judge(spec, obs):
                 return f"client {cid}, call #{k} {call['method']}{tuple(call['args'])}: got {r[:3]}, its own outcome is {exp}"
             if call["async"] and r[-1] < call["args"][1] - 0.02:
                 return f"client {cid}, call #{k} {call['method']}: returned after {r[-1]} s, before its operation completed ({call['args'][1]} s)"
-        if c["server"] in ("ok", "slow"):
+        if c["server"] in ("ok", "slow", "frames"):
             # executed on the reactor one at a time, in call order
             log = [(w, n) for cc, w, n in obs["log"] if str(cc) == cid]
-            want = [x for call in c["calls"] for x in (("start", call["args"][0]), ("finish", call["args"][0]))]
+            want = [x for call in c["calls"] if call["method"].startswith("probe")
+                    for x in (("start", call["args"][0]), ("finish", call["args"][0]))]
             if log != want:
                 k = next((j for j, (a, b) in enumerate(zip(log, want)) if a != b), min(len(log), len(want)))
                 return f"client {cid}: operations on the reactor ran as {log[max(0, k - 2):k + 3]}, the calls were made as {want[max(0, k - 2):k + 3]}"
@@ -83,7 +97,7 @@ def run(tier, seed, model):
     n = 14 if tier == "quick" else 120
     specs = []
     for i in range(n):
-        kinds = ["one", "two", "refuse", "needpw", "mixed", "burst", "two", "one", "burst"]
+        kinds = ["one", "two", "refuse", "needpw", "mixed", "burst", "frames", "two", "one", "burst", "frames"]
         kind = kinds[i] if i < len(kinds) else rng.choice(kinds)
         clients = []
         if kind == "burst":
@@ -96,7 +110,24 @@ def run(tier, seed, model):
             clients.append({"id": 1, "server": rng.choice(["ok", "slow"]), "calls": gen_calls(rng, 100, rng.randrange(3, 10))})
             clients.append({"id": 2, "server": rng.choice(["ok", "slow"]), "calls": gen_calls(rng, 500, rng.randrange(3, 10))})
         elif kind in ("refuse", "needpw"):
-            clients.append({"id": 1, "server": kind, "calls": gen_calls(rng, 100, 3)})
+            # several calls, among them real API operations that do not touch the client object much (pause)
+            calls = gen_calls(rng, 100, 3)
+            calls.insert(rng.randrange(1, 4), {"method": "pause", "args": [0.01], "sleep": 0, "exp": ["raise", None], "async": 0})
+            calls.append({"method": "keyPress", "args": ["a"], "sleep": 0, "exp": ["raise", None], "async": 0})
+            clients.append({"id": 1, "server": kind, "calls": calls})
+        elif kind == "frames":
+            # captures against a server that answers each request 0.3 s later with a frame telling which request it answers;
+            # failing captures (unwritable destination) in between must not shift the later ones
+            calls = []
+            for k in range(rng.randrange(3, 6)):
+                calls.append({"method": rng.choice(["capture", "capture", "capture_bad"]) if k else rng.choice(["capture", "capture_bad"]),
+                              "args": [], "sleep": 0, "exp": ["ret", None], "async": 1})
+                if rng.random() < 0.4:
+                    calls += gen_calls(rng, 100 + 10 * k, 1)
+            if not any(cc["method"] == "capture_bad" for cc in calls[:-1]):
+                calls.insert(0, {"method": "capture_bad", "args": [], "sleep": 0, "exp": ["ret", None], "async": 1})
+            calls.append({"method": "capture", "args": [], "sleep": 0, "exp": ["ret", None], "async": 1})
+            clients.append({"id": 1, "server": "frames", "calls": calls})
         else:
             clients.append({"id": 1, "server": "ok", "calls": gen_calls(rng, 100, rng.randrange(3, 8))})
             clients.append({"id": 2, "server": rng.choice(["refuse", "needpw"]), "calls": gen_calls(rng, 500, 3)})
@@ -118,6 +149,8 @@ def run(tier, seed, model):
             continue
         # the model on a straightforward schedule of the same calls: same delivered outcomes
         for c in spec["clients"]:
+            if c["server"] == "frames":
+                continue
             ops = [[call["async"], (call["exp"][1] if call["exp"][1] is not None else 0) * (1 if call["exp"][0] == "ret" else -1)]
                    for call in c["calls"]]
             up = c["server"] in ("ok", "slow")
